@@ -351,6 +351,34 @@ def merge_temp_accumulators(fn, mask_vars):
             blk[i].value = ast.copy_location(ast.Constant(value=l.value), blk[i].value)
             st.value = ast.copy_location(ast.Name(id=tmp, ctx=ast.Load()), st.value)
 
+    # `<statements that only assign t>; v = t` (t read nowhere else, v untouched in between)  ->  the same statements assigning v
+    for blk in blocks(fn):
+        for j, st in enumerate(blk):
+            if not (isinstance(st, ast.Assign) and len(st.targets) == 1 and isinstance(st.targets[0], ast.Name) and st.targets[0].id in mask_vars
+                    and isinstance(st.value, ast.Name) and st.value.id not in mask_vars):
+                continue
+            target, tmp = st.targets[0].id, st.value.id
+            all_loads = [x for x in ast.walk(fn) if isinstance(x, ast.Name) and x.id == tmp and isinstance(x.ctx, ast.Load)]
+            first = [i for i in range(j) if any(isinstance(x, ast.Name) and x.id == tmp for x in ast.walk(blk[i]))]
+            if not first:
+                continue
+            seg = blk[first[0]:j]
+            seg_loads = [x for s_ in seg for x in ast.walk(s_) if isinstance(x, ast.Name) and x.id == tmp and isinstance(x.ctx, ast.Load)]
+            # `if not t:` tests of the accumulator are reads of the value being built: they travel with the rename
+            if len(all_loads) != len(seg_loads) + 1:
+                continue
+            if any(isinstance(x, ast.Name) and x.id == target for s_ in seg for x in ast.walk(s_)):
+                continue
+            stores_elsewhere = [x for x in ast.walk(fn) if isinstance(x, ast.Name) and x.id == tmp and not isinstance(x.ctx, ast.Load)
+                                and not any(x is y for s_ in seg for y in ast.walk(s_))]
+            if stores_elsewhere:
+                continue
+            for s_ in seg:
+                for x in ast.walk(s_):
+                    if isinstance(x, ast.Name) and x.id == tmp:
+                        x.id = target
+            blk[j] = ast.copy_location(ast.Pass(), st)
+
     for _ in range(8):
         changed = False
         for blk in blocks(fn):
